@@ -306,6 +306,87 @@ def pDecc (gs : List (List (List Nat))) (obs : List String) : String := Id.run d
       return "ok"
   | _ => return "bad-op"
 
+/-! ### ctx / ctxc: deliveries with cancelled or expired message contexts -/
+
+structure CtxStep where
+  key : Nat
+  mode : Char
+  deriving Inhabited
+
+def parseCtxStep (t : String) : Option CtxStep :=
+  match t.toList.reverse with
+  | m :: ds@(_ :: _) =>
+    if "lcxht".toList.contains m then (String.ofList ds.reverse).toNat?.map fun k => ⟨k, m⟩ else none
+  | _ => none
+
+/-- the model: the repository does not look at the context, the mode of a delivery is irrelevant -/
+def mCtx (via : String) (steps : List CtxStep) : String := Id.run do
+  let mut r : Repo String := []
+  let mut out : List Char := []
+  let mut now := 0
+  for s in steps do
+    if via = "mw" then
+      let (r', res, _) := middleware bigWindow r (.key (toString s.key)) now ()
+      r := r'
+      out := (match res with | .handled _ => 'p' | .dropped => 'd' | .keyErr => 'e') :: out
+    else
+      let (r', o) := decorate bigWindow r [⟨0, .key (toString s.key), now⟩] false
+      r := r'
+      out := (if o.err != .none then 'e' else if o.forwarded == some [0] then 'p' else if o.acked == [0] then 'd' else '?') :: out
+    now := now + 1
+  return if out.isEmpty then "-" else String.ofList out.reverse
+
+/-- statement: per key exactly one message reaches the handler / wrapped publisher – in particular a delivery that was
+    rejected with an error has not used up the key: nothing is dropped as a success unless a message of that key did
+    reach, nothing reaches twice, and a key that had a delivery with a live context has reached by the end -/
+def pCtx (steps : List CtxStep) (obs : String) : String := Id.run do
+  let letters := if obs = "-" then [] else obs.toList
+  if letters.length != steps.length then return "violated:length"
+  let mut reached : List Nat := []
+  for (s, c) in steps.zip letters do
+    if c == 'p' then
+      if reached.contains s.key then return "violated:duplicate_reached"
+      reached := s.key :: reached
+    else if c == 'd' then
+      if !(reached.contains s.key) then return "violated:dropped_but_none_reached"
+    else if c == 'e' then
+      if s.mode == 'l' then return "violated:live_delivery_rejected"
+    else return "violated:error_or_panic"
+  for s in steps do
+    if s.mode == 'l' && !(reached.contains s.key) then return "violated:live_delivery_but_none_reached"
+  return "ok"
+
+def parseCtxAssign (s : String) : Option (List (List CtxStep)) :=
+  (s.splitOn ";").mapM fun g => (g.splitOn ".").mapM parseCtxStep
+
+def mCtxc (gs : List (List CtxStep)) : String :=
+  let arrivals := gs.flatten.map (·.key)
+  let nk := arrivals.foldl (fun m k => max m (k + 1)) 0
+  -- by `concurrent_exactly_one` / `keys_independent` every interleaving gives the same counts
+  let r := (run bigWindow [] (arrivals.zipIdx.map fun (k, i) => Op.arrive (toString k) i)).2
+  let acc := (arrivals.zip r).filterMap fun (k, x) => if x == Res.verdict false then some k else none
+  ",".intercalate ((List.range nk).map fun k => s!"k{k}={countOf acc k}:{countOf arrivals k - countOf acc k}:0")
+
+def pCtxc (gs : List (List CtxStep)) (obs : String) : String := Id.run do
+  let all := gs.flatten
+  let nk := all.foldl (fun m s => max m (s.key + 1)) 0
+  match parseKeyStats obs with
+  | none => return "bad-op"
+  | some st =>
+    if st.length != nk then return "violated:length"
+    for (v, k) in st.zipIdx do
+      let mine := all.filter (·.key == k)
+      let live := mine.any (·.mode == 'l')
+      match v with
+      | [reached, dropped, errs] =>
+        if reached + dropped + errs != mine.length then return "violated:length"
+        if reached > 1 then return "violated:concurrent_exactly_one"
+        if dropped > 0 && reached == 0 then return "violated:dropped_but_none_reached"
+        if live && reached != 1 then return "violated:live_delivery_but_none_reached"
+        if errs > (mine.filter (·.mode != 'l')).length then return "violated:live_delivery_rejected"
+      | _ => return "bad-op"
+    return "ok"
+
 /-! ### hash / metakey / timeout / router / expire -/
 
 def mHash (algo : String) (l : Int) (p1 p2 : List UInt8) : String :=
@@ -517,6 +598,25 @@ def handle (line : String) : String :=
   | "P" :: "hist" :: w :: _ :: rest =>
     match w.toNat?, (rest.takeWhile (· ≠ "##")).mapM parseTEv with
     | some w, some evs => pHist w evs
+    | _, _ => "bad-op"
+  | "M" :: "ctx" :: via :: h :: steps =>
+    match parseHasher h, steps.mapM parseCtxStep with
+    | some _, some steps => if via = "mw" || via = "dec" then mCtx via steps else "bad-op"
+    | _, _ => "bad-op"
+  | "P" :: "ctx" :: via :: h :: rest =>
+    match rest.span (· ≠ "##") with
+    | (steps, ["##", obs]) =>
+      match parseHasher h, steps.mapM parseCtxStep with
+      | some _, some steps => if via = "mw" || via = "dec" then pCtx steps obs else "bad-op"
+      | _, _ => "bad-op"
+    | _ => "bad-op"
+  | ["M", "ctxc", via, h, _, a] =>
+    match parseHasher h, parseCtxAssign a with
+    | some _, some gs => if via = "mw" || via = "dec" then mCtxc gs else "bad-op"
+    | _, _ => "bad-op"
+  | ["P", "ctxc", via, h, _, a, "##", obs] =>
+    match parseHasher h, parseCtxAssign a with
+    | some _, some gs => if via = "mw" || via = "dec" then pCtxc gs obs else "bad-op"
     | _, _ => "bad-op"
   | ["M", "expire", _, ms] => if ms.toNat?.isSome then "reaccepted" else "bad-op"
   | ["P", "expire", _, _, "##", obs] =>
